@@ -95,7 +95,8 @@ def judge(case, io_, mo):
             m = unhs(o[3:])
             if len(m) != len(s) or m[:6] != s[:6] or m[-4:] != s[-4:] or any(ch != mc for ch in m[6:-4]):
                 ps.append({'kind': 'oracle', 'sig': 'mask-shape', 'msg': 'mask(%r) = %r' % (s, m)})
-        if mo is not None and not ps and mo[0] != o:
+        # fewer than 10 characters: outside the property (a rewrite may treat such input differently), not compared
+        if mo is not None and not ps and len(s) >= 10 and mo[0] != o:
             ps.append({'kind': 'corr', 'sig': 'mask', 'msg': 'mask differs from model: %s vs %s' % (o, mo[0])})
         return ps
     if case['kind'] == 'switch':
